@@ -73,6 +73,11 @@ CLAIMED = {
    "DESIGN.md §4 C03",
    "Trusted: constant evaluation by go/types; the validator's dispatch is an if/else-if chain over the opcode (anything else is undecided); opcode classes by the exported constant names of internal/wasm.",
    "static: exhaustiveness (finite-domain evaluation + case-label set inclusion), consult/taint rules on typed syntax"),
+ "C04": ("other",
+   "Static decision of structural necessary conditions for every import graph: import slots receive the exporter's very object (SSA value identity), each extern kind's link-time check consults every component of the type under an error-returning condition (incl. memory sharedness), direct readers of the captured global value are the listed packages only, table importers/exporters are recorded for keep-alive, index spaces are not mixed (import section, imported-function index – the latter found a genuine defect that was fixed), all mutable globals are re-read after calls, Go-side builtins act on the calling instance. Visibility through generated code and failed-instantiation states are not decided.",
+   "DESIGN.md §4 C04",
+   "Trusted: anchors by exported spec-level names (ExternType*, ModuleInstance fields), SSA dominance on syntactic paths.",
+   "static: SSA value identity, consult rules on typed syntax, index-space discipline, sibling-arm comparison"),
 }
 
 NOT_APPLICABLE = {
